@@ -360,9 +360,9 @@ def run(prop, replay_file=None):
             payload = json.load(open(replay_file))
             jobs = [(payload["spec"], payload["spec2"], payload["T"], payload["seed"])]
         else:
-            model_twins(rep, rng, 60 if t == "quick" else 600)
+            model_twins(rep, rng, 60 if t == "quick" else 1500)
             jobs = []
-            n = 480 if t == "quick" else 8000
+            n = 480 if t == "quick" else 30000
             while len(jobs) < n:
                 spec = gen_world(rng, realistic=(len(jobs) % 3 == 2))
                 s2, T = twin_of(spec, rng)
@@ -401,7 +401,7 @@ def run(prop, replay_file=None):
     rep.assumptions = ["digest = fills without order identifiers, equity curve, allocation records, failure; compared bit for bit",
                        "fresh interpreters under PYTHONHASHSEED 0, 1, 2, 3 and 'random'"]
     signals_order_check(rep)
-    n = 10 if t == "quick" else 80
+    n = 10 if t == "quick" else 160
     if replay_file:
         specs = [json.load(open(replay_file))["spec"]]
     else:
